@@ -365,21 +365,39 @@ theorem filterS_spec (e : ExS n) (h : e.clean = true) (rs : List (Row n)) :
   | cons r rs ih =>
     simp only [filterS, ExS.eval_restores e h, ih, ExS.eval_fst, List.filter_cons]
 
-theorem QS.run_spec (st : Store) (q : QS n) (h : q.clean = true) : q.run st = (q.erase.eval st, q) := by
+theorem QS.run_snd (st : Store) (q : QS n) (h : q.clean = true) : (q.run st).2 = q := by
   induction q with
   | bgp ts => rfl
   | join a b iha ihb =>
     simp only [QS.clean, Bool.and_eq_true] at h
-    simp [QS.run, QS.erase, Q.eval, iha h.1, ihb h.2]
+    simp [QS.run, iha h.1, ihb h.2]
   | union a b iha ihb =>
     simp only [QS.clean, Bool.and_eq_true] at h
-    simp [QS.run, QS.erase, Q.eval, iha h.1, ihb h.2]
+    simp [QS.run, iha h.1, ihb h.2]
   | filter e q ih =>
     simp only [QS.clean, Bool.and_eq_true] at h
-    simp [QS.run, QS.erase, Q.eval, ih h.2, filterS_spec e h.1]
+    simp [QS.run, ih h.2, filterS_spec e h.1]
   | proj vs q ih =>
     simp only [QS.clean] at h
-    simp [QS.run, QS.erase, Q.eval, ih h]
+    simp [QS.run, ih h]
+
+theorem QS.run_fst_perm {st : Store} {g : List Triple} (hg : GraphLike st g) (q : QS n) (h : q.clean = true) :
+    (q.run st).1.Perm (q.erase.eval st) := by
+  induction q with
+  | bgp ts => exact evalBGP_graphLike_perm hg (dynOrder_perm Row.empty ts) Row.empty
+  | join a b iha ihb =>
+    simp only [QS.clean, Bool.and_eq_true] at h
+    exact joinBag_perm (iha h.1) (ihb h.2)
+  | union a b iha ihb =>
+    simp only [QS.clean, Bool.and_eq_true] at h
+    exact (iha h.1).append (ihb h.2)
+  | filter e q ih =>
+    simp only [QS.clean, Bool.and_eq_true] at h
+    simp only [QS.run, QS.erase, Q.eval, filterS_spec e h.1]
+    exact (ih h.2).filter _
+  | proj vs q ih =>
+    simp only [QS.clean] at h
+    exact (ih h).map _
 
 theorem QS.clean_ofQ (q : Q n) : (QS.ofQ q).clean = true := by
   induction q with
@@ -398,10 +416,10 @@ theorem QS.erase_ofQ (q : Q n) : (QS.ofQ q).erase = q := by
   | proj vs q ih => simp [QS.ofQ, QS.erase, ih]
 
 theorem runMany_spec (q : QS n) (h : q.clean = true) (sts : List Store) :
-    runMany q sts = (sts.map fun st => q.erase.eval st, q) := by
+    runMany q sts = (sts.map fun st => (q.run st).1, q) := by
   induction sts with
   | nil => rfl
-  | cons st sts ih => simp [runMany, QS.run_spec st q h, ih]
+  | cons st sts ih => simp [runMany, QS.run_snd st q h, ih]
 
 /-- an arbitrary schedule of `Expr.eval` calls on the expression nodes of a prepared query
     (rows of different evaluations interleaved, generators abandoned half-way, …) -/
